@@ -13,6 +13,7 @@ mod render;
 mod ron;
 mod sanitizer;
 mod semver;
+mod template;
 mod wire;
 mod zmodel;
 
@@ -40,6 +41,8 @@ fn main() {
         ("record", "pipe") => pipe::record(rest),
         ("replay", "schema") => ron::replay_schema(rest),
         ("record", "ron") => ron::record(rest),
+        ("replay", "template") => template::replay(rest),
+        ("record", "template") => template::record(rest),
         ("replay", "render") => render::replay(rest),
         ("record", "render") => render::record(rest),
         ("replay", "zerv") => zmodel::replay(rest),
